@@ -333,3 +333,32 @@ package clusters
 //@   modifies *
 //@   ensures [stops_on_probe_ctx] selectchan(1) == doneOf(ctx) && selectedcase() == 1
 //@   loop 0: invariant [t] true
+
+// A gate query reads the cluster's current gate object and changes nothing (used by the filters, C10; the gate algebra is C11's).
+//@ func (*ClusterInfo).FeatureEnabled props C10, C11
+//@   pure-def genabled(fgval[c.featuregate], stringof(key))
+
+// What the TLS handshake is given for a cluster is exactly the material stored for that cluster (C10); C11 proves what is stored.
+//@ const hasTLS = tlsStored && !(len(TLSP.certs) == 0 && TLSP.clientCA == nil)
+//@ func (*ClusterInfo).LoadTLSConfig props C10
+//@   requires [wf] tlsEmptyOrStored
+//@   modifies nothing
+//@   ensures [none] !old(hasTLS) ==> !result1 && result == nil
+//@   ensures [own_material] old(hasTLS) ==> result1 && result != nil && fresh(result) && result.ClientCAs == old(TLSP.clientCA) && result.Certificates == old(TLSP.certs)
+//@ func (*ClusterInfo).LoadVerifyOptions props C10
+//@   requires [wf] tlsEmptyOrStored
+//@   modifies nothing
+//@   ensures [none] !(old(tlsStored) && old(TLSP.verifyOptions) != nil) ==> !result1
+//@   ensures [own_options] old(tlsStored) && old(TLSP.verifyOptions) != nil ==> result1 && result.Roots == old(TLSP.verifyOptions.Roots)
+
+// An endpoint's readiness flags change only in these two places: disabling / enabling touches the disabled flag alone (it
+// never makes an endpoint healthy), and a probe result sets the healthy flag to exactly what the probe reported (C03).
+//@ func (*EndpointInfo).SetDisabled props C03
+//@   requires [wf] e.status != nil
+//@   modifies e.status.Disabled
+//@   ensures [set] e.status.Disabled == disabled
+//@ func (*EndpointInfo).UpdateStatus props C03
+//@   requires [wf] e.status != nil
+//@   modifies e.status.Healthy, e.status.Reason, e.status.Message, e.status.UnhealthyCount
+//@   ensures [healthy_is_probe_result] e.status.Healthy == healthy
+//@   ensures [count] (healthy ==> e.status.UnhealthyCount == 0) && (!healthy ==> e.status.UnhealthyCount == old(e.status.UnhealthyCount) + 1)
